@@ -21,6 +21,35 @@ pub enum Node {
 }
 
 pub fn render_nodes(nodes: &[Node], indent: usize, out: &mut String) {
+    render_nodes_split(nodes, indent, out, &mut None)
+}
+
+/// v2: some arms keep their content in a file of their own and hold only the `#include` line
+pub struct IncSplit {
+    pub files: Vec<(String, String)>,
+    pub choose: Vec<bool>,
+    pub next: usize,
+}
+
+fn render_arm(body: &[Node], indent: usize, out: &mut String, split: &mut Option<IncSplit>) {
+    if let Some(sp) = split {
+        let pick = !body.is_empty() && sp.choose[sp.next % sp.choose.len()];
+        sp.next += 1;
+        if pick {
+            let name = format!("inc{}.asm", sp.files.len());
+            sp.files.push((name.clone(), String::new()));
+            let at = sp.files.len() - 1;
+            let mut text = String::new();
+            render_nodes_split(body, 0, &mut text, split);
+            split.as_mut().unwrap().files[at].1 = text;
+            out.push_str(&format!("{}#include \"{}\"\n", "    ".repeat(indent), name));
+            return;
+        }
+    }
+    render_nodes_split(body, indent, out, split);
+}
+
+pub fn render_nodes_split(nodes: &[Node], indent: usize, out: &mut String, split: &mut Option<IncSplit>) {
     let pad = "    ".repeat(indent);
     for n in nodes {
         match n {
@@ -32,12 +61,12 @@ pub fn render_nodes(nodes: &[Node], indent: usize, out: &mut String) {
             Node::If { arms, else_arm } => {
                 for (k, (c, body)) in arms.iter().enumerate() {
                     out.push_str(&format!("{}{} {}\n{}{{\n", pad, if k == 0 { "#if" } else { "#elif" }, print(c, false), pad));
-                    render_nodes(body, indent + 1, out);
+                    render_arm(body, indent + 1, out, split);
                     out.push_str(&format!("{}}}\n", pad));
                 }
                 if let Some(e) = else_arm {
                     out.push_str(&format!("{}#else\n{}{{\n", pad, pad));
-                    render_nodes(e, indent + 1, out);
+                    render_arm(e, indent + 1, out, split);
                     out.push_str(&format!("{}}}\n", pad));
                 }
             }
@@ -549,10 +578,19 @@ impl Property for C16 {
     fn run(&self, t: &mut Tape, ctx: &mut CaseCtx) -> Verdict {
         let (nodes, defs) = gen_cond(t);
         let mut src = String::new();
-        render_nodes(&nodes, 0, &mut src);
+        // v2: one case in five keeps the content of some arms in included files
+        let mut split = if crate::engine::gen_version() >= 2 && t.chance(1, 5) { Some(IncSplit { files: vec![], choose: (0..8).map(|_| t.chance(1, 3)).collect(), next: 0 }) } else { None };
+        render_nodes_split(&nodes, 0, &mut src, &mut split);
+        let inc_files: Vec<(String, String)> = split.map(|s| s.files).unwrap_or_default();
+        if !inc_files.is_empty() {
+            ctx.label("arm-content-in-included-file");
+        }
         let cli = cli_of(&defs, t);
         ctx.hash = crate::engine::mix(crate::engine::fnv(src.as_bytes()), crate::engine::fnv(cli.join(" ").as_bytes()));
-        let render = || json!({"source": src, "defines": cli});
+        for f in &inc_files {
+            ctx.hash = crate::engine::mix(ctx.hash, crate::engine::fnv(f.1.as_bytes()));
+        }
+        let render = || json!({"source": src, "defines": cli, "included_files": inc_files.iter().map(|f| json!({"name": f.0, "text": f.1})).collect::<Vec<_>>()});
         ctx.render(render);
         let world = select_world(&nodes, &defs);
         if src.contains("#elif sel7 == 10") {
@@ -582,7 +620,14 @@ impl Property for C16 {
         }
         ctx.nontrivial = depth(&nodes) >= 2 && (!defs.is_empty() || src.contains("    c"));
         // 1. library entry point with driver symbol definitions
-        let out = sut::assemble_src(&src, &Opts { defines: defs.clone(), ..Opts::default() });
+        let out = {
+            let mut fs = MemFs::new();
+            fs.add("main.asm", src.as_bytes().to_vec());
+            for f in &inc_files {
+                fs.add(&f.0, f.1.as_bytes().to_vec());
+            }
+            sut::assemble(&mut fs, &["main.asm"], &Opts { defines: defs.clone(), ..Opts::default() })
+        };
         ctx.evals += 1;
         if let Some((c, d)) = crate::props::c01::compare(&model, &out) {
             ctx.want_render = true;
@@ -592,6 +637,9 @@ impl Property for C16 {
         // 2. the driver with -d options
         let mut fs = MemFs::new();
         fs.add("main.asm", src.as_bytes().to_vec());
+        for f in &inc_files {
+            fs.add(&f.0, f.1.as_bytes().to_vec());
+        }
         let mut args: Vec<String> = vec!["-q".into(), "main.asm".into(), "-f".into(), "binary".into(), "-o".into(), "out.bin".into()];
         args.extend(cli.iter().cloned());
         let r = sut::drive(&mut fs, &args);
